@@ -50,7 +50,7 @@ def cfg_lit(fl):
     if fl['ver'] == 'tls13':
         if fl['eut'] == 'client':
             return '(cl13 %s true false)' % k
-        return '(sv13 %s %s %s false)' % (k, b(fl.get('reqcert')), b(fl.get('hrr')))
+        return '(%s %s %s %s false)' % ('sv13e' if fl.get('early') else 'sv13', k, b(fl.get('reqcert')), b(fl.get('hrr')))
     if fl['eut'] == 'client':
         if fl.get('resume'):
             k = 'KRsa'
@@ -92,6 +92,8 @@ def tok(s):
     if k == 'PAlert':
         return '%dALERT%s;' % (ep, s[2])
     if k == 'PApp':
+        if len(s) > 3 and s[3] == 'undec':
+            return 'UNDEC;'
         return '%d%s;' % (ep, 'APPEMPTY' if s[2] else 'APP')
     return '%dHB;' % ep
 
@@ -143,7 +145,12 @@ def py_grammar(fl):
             g = (opt(m(0, 'HRR')) + m(0, 'SH', True) + m(1, 'EE') +
                  ('' if psk else opt(m(1, 'CR')) + cert + m(1, 'CV')) + m(1, 'Fin', True))
         else:
-            first = (m(0, 'CH') + m(0, 'CH', True)) if fl.get('hrr') else m(0, 'CH', True)
+            # RFC 8446 4.2.10: undecryptable records are skipped only between the first ClientHello
+            # and the second one (HRR) / the first record that opens (no HRR)
+            win = '(?:0CCS;|UNDEC;)*' if fl.get('early') else ''
+            # without read keys every application_data record looks like early data
+            win0 = '(?:0CCS;|UNDEC;|0APP;|0APPEMPTY;)*' if fl.get('early') else ''
+            first = (m(0, 'CH') + win0 + m(0, 'CH', True)) if fl.get('hrr') else (m(0, 'CH', True) + win)
             mid = ''
             if fl.get('reqcert') and not psk:
                 mid = alt(m(1, 'CertE'), alt(m(1, 'CertN'), m(1, 'CCert')) + m(1, 'CV'))
@@ -179,6 +186,11 @@ def py_devclass(fl, trace):
             if k in ('PH', 'PBufH') and al is False and not seen_first and \
                     ((fl['eut'] == 'client' and a == 'SH') or (fl['eut'] == 'server' and a == 'CH' and not fl.get('hrr'))):
                 out.append('unaligned-first13:%s' % fl['eut'])
+        if k in ('PH', 'PBufH') and i > 0 and ((fl['eut'] == 'server' and a == 'CH' and not (v13 and fl.get('hrr'))) or
+                                               (fl['eut'] == 'client' and a == 'HReq')):
+            out.append('reneg-msg-skipped-in-handshake:%s' % fl['eut'])
+        if k == 'PApp' and al == 'undec':
+            out.append('undecryptable-record-skipped:%s' % fl['eut'])
         if not v13 and fl['eut'] == 'client' and k in ('PH', 'PBufH') and a == 'CR' and \
                 fl['kx'] not in ('rsa', 'dhe', 'ecdhe'):
             out.append('certreq-in-%s:client' % fl['kx'])
@@ -216,6 +228,10 @@ def flavours(tier):
         F.append(dict(eut=eut, ver='tls13', kx='cert13', reqcert=True, clientcert=True))
         F.append(dict(eut=eut, ver='tls13', kx='cert13', reqcert=True, clientcert=False))
         F.append(dict(eut=eut, ver='tls13', kx='psk13'))
+        if eut == 'server':
+            F.append(dict(eut=eut, ver='tls13', kx='psk13', hrr=True, early=True))
+            F.append(dict(eut=eut, ver='tls13', kx='psk13', early=True))
+            F.append(dict(eut=eut, ver='tls13', kx='psk13', hrr=True))
         if tier != 'quick':
             F.append(dict(eut=eut, ver='tls13', kx='cert13', reqcert=True, clientcert=True, compress=True))
             F.append(dict(eut=eut, ver='tls11', kx='ecdhe', reqcert=True, clientcert=True, npn=True))
@@ -250,9 +266,17 @@ def single_devs(fl, log, rng, quick):
                 what.append('CR')
         for w in what:
             devs.append([dict(op='insert', k=k, what=w)])
+        # always: a record that opens under no key, and the message the renegotiation branch of
+        # _getMsg special-cases (in and out of the peer's transcript), before every message
+        devs.append([dict(op='insert', k=k, what='Undec')])
+        rn = 'HReq' if fl['eut'] == 'client' else 'CH'
+        if k > 0:
+            if rn not in what:
+                devs.append([dict(op='insert', k=k, what=rn)])
+            devs.append([dict(op='insert', k=k, what=rn, nohash=True)])
         for w in (['Fin', 'CertE', 'NST'] if not quick else [rng.choice(['Fin', 'CertE', 'NST'])]):
             devs.append([dict(op='replace', k=k, what=w)])
-        if ep >= 1:
+        if ep >= 1 and not fl.get('early'):
             devs.append([dict(op='epoch', k=k, epoch=ep - 1)])
         if kind != 'CCS':
             devs.append([dict(op='split', k=k, at=rng.choice([1, 2, 4, 5]))])
@@ -355,6 +379,8 @@ def run_post(job):
         out['peer_read'] = loop.classify(pr) if pr[0] == 'exc' else ('ok', bytes(pr[1] or b''))
         if pr[0] == 'exc' and hasattr(pr[1], 'level'):
             out['peer_alert_level'] = int(pr[1].level)
+        # the wrapped peer drops (and records) no_renegotiation warnings
+        out['peer_saw_warning'] = 100 in dp.swallowed_warnings
         # a second handshake through the API is refused as well (only meaningful while the
         # connection is still up; a closed TLSConnection object may be reused for a new one)
         if eut.closed:
@@ -463,10 +489,10 @@ def run(ctx):
                         pairs.append(a + b2)
                 devs = devs + pairs
             elif len(devs) > 70:
-                keep = [d for d in devs if d[0]['op'] in ('skip', 'swap', 'span', 'merge', 'glue') or d[0].get('what') == 'CR']
-                rest = [d for d in devs if not (d[0]['op'] in ('skip', 'swap', 'span', 'merge', 'glue') or d[0].get('what') == 'CR')]
+                keep = [d for d in devs if d[0]['op'] in ('skip', 'swap', 'span', 'merge', 'glue') or d[0].get('what') in ('CR', 'Undec', 'CH', 'HReq')]
+                rest = [d for d in devs if not (d[0]['op'] in ('skip', 'swap', 'span', 'merge', 'glue') or d[0].get('what') in ('CR', 'Undec', 'CH', 'HReq'))]
                 rng.shuffle(rest)
-                devs = keep + rest[:max(0, 80 - len(keep))]
+                devs = keep + rest[:max(0, 95 - len(keep))]
             for d in devs:
                 jobs.append((h['fl'], d, 1))
         ctx.log('%d flavours, %d deviation runs' % (len(fls), len(jobs)))
@@ -537,7 +563,7 @@ def run(ctx):
         elif not v13:
             if po['read'] != ('ok', b'data after the attempt') or po['closed']:
                 bad = 'data no longer flows after a refused renegotiation attempt: %r' % (po['read'],)
-            elif po['peer_read'] != ('RemoteAlert', 100) or po.get('peer_alert_level') != 1:
+            elif not po.get('peer_saw_warning'):
                 bad = 'no no_renegotiation warning was sent: peer saw %r' % (po['peer_read'],)
         else:
             if po['read'] != ('LocalAlert', 10) or not po['closed']:
